@@ -26,6 +26,7 @@ import PrologVerif.Proofs.RelErrors
 import PrologVerif.Proofs.RelList
 import PrologVerif.Proofs.Utf8
 import PrologVerif.Proofs.RelUnify
+import PrologVerif.Proofs.RelSld
 namespace PrologVerif.C16
 open PrologVerif PrologVerif.Rel PrologVerif.Relations
 
@@ -1671,6 +1672,113 @@ theorem C16_length_errors (k : Nat) (l len : Term) : ErrorsOk "length" [l, len] 
   | flt _ => exact errorsOk_of _ [] (modeErrors_length l _) rfl (by simp [Rel.length, checkPositiveInteger, notLessThanZero])
   | str _ => exact errorsOk_of _ [] (modeErrors_length l _) rfl (by simp [Rel.length, checkPositiveInteger, notLessThanZero])
   | app _ _ => exact errorsOk_of _ [] (modeErrors_length l _) rfl (by simp [Rel.length, checkPositiveInteger, notLessThanZero])
+
+/-! ## member/2, select/3 (bootstrap.pl) and append/3 -/
+
+/-- the clauses of member/2 and select/3 that the model resolves over are those of bootstrap.pl
+    (regenerated from the source on every run; proved by kernel evaluation) -/
+theorem C16_bootstrap_tie :
+    bootClauses "member" 2 =
+      [ Term.a2 "member" (.var 0) (Term.consT (.var 0) (.var 1)),
+        Term.a2 ":-" (Term.a2 "member" (.var 0) (Term.consT (.var 1) (.var 2))) (Term.a2 "member" (.var 0) (.var 2)) ] ∧
+    bootClauses "select" 3 =
+      [ Term.a3 "select" (.var 0) (Term.consT (.var 0) (.var 1)) (.var 1),
+        Term.a2 ":-" (Term.a3 "select" (.var 0) (Term.consT (.var 1) (.var 2)) (Term.consT (.var 1) (.var 3)))
+          (Term.a3 "select" (.var 0) (.var 2) (.var 3)) ] :=
+  bootstrap_tie
+
+/-- each of these clauses (and the two clauses quoted in `appendLists`) is valid for the specified
+    relations: this is what makes every SLD answer a tuple of the relation -/
+theorem C16_clauses_valid :
+    (∀ c ∈ bootClauses "member" 2, ClauseValid Meaning c) ∧ (∀ c ∈ bootClauses "select" 3, ClauseValid Meaning c) ∧
+    (∀ c ∈ appendClauses, ClauseValid Meaning c) :=
+  ⟨member_clauses_valid, select_clauses_valid, append_clauses_valid⟩
+
+/-- member/2, all arguments arbitrary terms (partial lists, non-ground elements included): every
+    answer is an instance of the call in which the first argument is an element of the second -/
+theorem C16_member_sound {fuel : Nat} {x l : Term} {ans : Answers} (h : Rel.member fuel x l = .ok ans) :
+    ∀ t ∈ ans, memberT t ∧ IsInstance [x, l] t := by
+  unfold Rel.member at h
+  cases h
+  intro t ht
+  obtain ⟨Δ, rfl, hΔ⟩ := sld_sound member_clauses_valid _ _ _ _ t ht
+  have := hΔ _ (List.mem_singleton.mpr rfl)
+  simp only [Term.a2, substT, substA, Meaning] at this
+  exact ⟨this, ⟨Δ, rfl⟩⟩
+
+/-- select/3, all arguments arbitrary terms -/
+theorem C16_select_sound {fuel : Nat} {e l r : Term} {ans : Answers} (h : Rel.select fuel e l r = .ok ans) :
+    ∀ t ∈ ans, selectT t ∧ IsInstance [e, l, r] t := by
+  unfold Rel.select at h
+  cases h
+  intro t ht
+  obtain ⟨Δ, rfl, hΔ⟩ := sld_sound select_clauses_valid _ _ _ _ t ht
+  have := hΔ _ (List.mem_singleton.mpr rfl)
+  simp only [Term.a3, substT, substA, Meaning] at this
+  exact ⟨this, ⟨Δ, rfl⟩⟩
+
+/-- append/3, all arguments arbitrary terms, both code paths (the fast path for an instantiated
+    first list and the two-clause definition) -/
+theorem C16_append_sound {fuel : Nat} {xs ys zs : Term} {ans : Answers} (h : Rel.append fuel xs ys zs = .ok ans) :
+    ∀ t ∈ ans, appendT t ∧ IsInstance [xs, ys, zs] t := by
+  unfold Rel.append at h
+  split at h
+  · rename_i hfast
+    cases h
+    intro t ht
+    have hxs : xs = Term.list xs.spine.1 := by
+      have : xs.spine.2 = Term.nilT := by
+        unfold appendFast at hfast
+        cases xs <;> simp_all
+      have h2 := list_spine xs
+      rw [this] at h2
+      exact h2.symm
+    unfold unifyAns at ht
+    split at ht
+    · rename_i δ hδ
+      simp only [List.mem_singleton] at ht
+      subst ht
+      refine ⟨?_, ⟨δ, rfl⟩⟩
+      have hs := unifyM_sound hδ
+      simp only [List.map, appendT]
+      have : asList (substT δ xs) = some (xs.spine.1.map (substT δ)) := by
+        rw [asList_eq_some_iff]
+        conv => lhs; rw [hxs, substT_list]
+        simp [Term.nilT, substT]
+      rw [this]
+      simp only
+      rw [hs, substT_list]
+    · cases ht
+  · cases h
+    intro t ht
+    obtain ⟨Δ, rfl, hΔ⟩ := sld_sound append_clauses_valid _ _ _ _ t ht
+    have := hΔ _ (List.mem_singleton.mpr rfl)
+    simp only [Term.a3, substT, substA, Meaning] at this
+    exact ⟨this, ⟨Δ, rfl⟩⟩
+
+/-- append/3 concatenating two ground lists (mode +,+,?): exactly the concatenation, whatever the
+    third argument is -/
+theorem C16_append_exact_concat_partial {fuel : Nat} {e : Term} {es : List Term} {ys zs : Term} {ans : Answers}
+    (hg : groundT (Term.list (e :: es)) = true) (hgy : groundT ys = true)
+    (h : Rel.append fuel (Term.list (e :: es)) ys zs = .ok ans) :
+    ExactInst appendT [Term.list (e :: es), ys, zs] ans := by
+  unfold Rel.append at h
+  have hsp : (Term.list (e :: es)).spine = (e :: es, Term.nilT) := spine_list_nil _
+  have hfast : appendFast (Term.list (e :: es)) = true := by
+    unfold appendFast
+    rw [hsp]; simp [Term.consT]
+  simp only [hfast, if_true, hsp] at h
+  cases h
+  have hgl : groundT (Term.list (e :: es) ys) = true := by
+    rw [groundT_list] at hg ⊢
+    simp only [Bool.and_eq_true] at hg ⊢
+    exact ⟨hg.1, hgy⟩
+  apply exactInst_unifyAns hgl
+  · intro σ hσ
+    simp only [List.map, substT_ground σ _ hg, substT_ground σ _ hgy, hσ, appendT, asList_list]
+  · intro σ hr
+    simp only [List.map, substT_ground σ _ hg, substT_ground σ _ hgy, appendT, asList_list] at hr
+    exact hr
 
 
 end PrologVerif.C16
